@@ -182,6 +182,43 @@ theorem switch_into (s : State) (S : W) (hn : s.mem s.rsi = S)
     simp only [m0] at K
     rw [K, mk _ (by simp [frameWords])]
 
+/-! ### anything that may happen between switch-out and switch-in -/
+
+/-- one piece of activity of the *other* coroutines (and of the dispatcher): a context switch, or any code at all -/
+inductive Act
+  | switch
+  | code (f : State → State)
+
+def Act.run : Act → State → State
+  | .switch, s => exec switchCode s
+  | .code f, s => f s
+
+/-- the activity stays off the protected addresses: a switch is issued from a stack, and with an `old` slot, that does
+    not contain one of them; other code does not write them -/
+def Act.respects (prot : List W) : Act → State → Prop
+  | .switch, s => ∀ a ∈ prot, a ∉ frameAddrs s.rsp ∧ a ≠ s.rdi
+  | .code f, s => ∀ a ∈ prot, (f s).mem a = s.mem a
+
+def runActs : List Act → State → State
+  | [], s => s
+  | a :: as, s => runActs as (a.run s)
+
+def Respects (prot : List W) : List Act → State → Prop
+  | [], _ => True
+  | a :: as, s => a.respects prot s ∧ Respects prot as (a.run s)
+
+/-- **induction over the interleaving**: however many switches and whatever code run in between, protected words
+    keep their contents -/
+theorem protected_survives (prot : List W) : ∀ (acts : List Act) (s : State), Respects prot acts s →
+    ∀ a ∈ prot, (runActs acts s).mem a = s.mem a
+  | [], _, _, _, _ => rfl
+  | act :: acts, s, h, a, ha => by
+    obtain ⟨h1, h2⟩ := h
+    rw [runActs, protected_survives prot acts _ h2 a ha]
+    cases act with
+    | switch => exact switch_mem_other s a (h1 a ha).1 (h1 a ha).2
+    | code f => exact h1 a ha
+
 /-! ### the trampoline -/
 
 /-- entry half of the trampoline: up to and including `call` -/
